@@ -83,6 +83,12 @@ func (x *Exec) callCommon(st *State, fr *Frame, cc *ssa.CallCommon, args []Val, 
 			binds = append(binds, x.val(st, fr, b))
 		}
 	}
+	if wk := walkKey(key, cc); wk != "" && x.Lib.Funcs[wk] != nil {
+		if ci, ok := x.closures[args[1].Term]; ok {
+			x.contractCall(st, fr, x.Lib.Funcs[wk], callee, cc, append(append([]Val{}, args...), ci.binds...), in, k)
+			return
+		}
+	}
 	if con := x.Lib.Funcs[key]; con != nil && (con.Extern || callee.Blocks == nil || fr.depth > 0 || key != x.curFn || true) {
 		if !(con.Extern == false && callee.Blocks != nil && len(con.Ensures) == 0 && len(con.Requires) == 0 && !con.NoInline && !con.Pure && !con.HasAssigns) {
 			x.contractCall(st, fr, con, callee, cc, args, in, k)
